@@ -6,7 +6,7 @@
    shown below to be RFC 6811's three sentences.  Quantified over every history [ops] of
    add / remove / remove-by-source on records with zero host bits ([op_ok]), both families,
    any AS (0 included), any max-length, any number of sources, and every query.            *)
-From RtrV Require Import Base.CSem Base.Bits Base.Bits6 Gen.Generated.
+From RtrV Require Import Base.CSem Base.Bits Base.Bits6 Gen.Generated Base.CSemSub Gen.GeneratedIp Base.IpAddr.
 From RtrV Require Import Pfx.TrieModel Pfx.PfxTable Pfx.PfxProofs Pfx.PfxValidate Pfx.PfxHistory Pfx.Hazards.
 From Coq Require Import Permutation.
 
@@ -69,6 +69,33 @@ Theorem C01_bit_select6 : forall s lvl, words_ok s -> (0 <= lvl < 128)%Z ->
     ((w0 r =? 0) && (w1 r =? 0) && (w2 r =? 0) && (w3 r =? 0))%Z = negb (nth (Z.to_nat lvl) (bits128 s) false).
 Proof. exact bit_select6. Qed.
 
+(* The whole address layer the trie is written against - lrtr_ip_addr_equal, lrtr_ip_addr_get_bits, lrtr_ip_addr_is_zero over
+   lrtr_ipv4/ipv6_addr_equal, lrtr_ipv4/ipv6_get_bits (Gen/GeneratedIp.v, translated from /repo on every run) - computes the
+   model's bit-list operations, for both families (Base/IpAddr.v):
+     exact match (trie_lookup_exact, trie_remove: lrtr_ip_addr_equal(n->prefix, *p))  =  same family and equal bit lists;
+     is_left_child(addr, lvl) = lrtr_ip_addr_is_zero(lrtr_ip_addr_get_bits(addr, lvl, 1))  =  bit lvl is clear;
+     the covering test of trie_lookup / validation, lrtr_ip_addr_equal(get_bits(p, 0, n), get_bits(q, 0, n))  =  firstn n agree;
+   and inside those domains no translated function is undefined (the [exists r, .. = Some r] forms). *)
+Theorem C01_addr_equal : forall x y, ip_ok x -> ip_ok y ->
+  (lrtr_ip_addr_equal_gen (ip_store x) (ip_store y) = Some 1%Z <-> same_family x y = true /\ ip_bits x = ip_bits y) /\
+  (same_family x y = false -> lrtr_ip_addr_equal_gen (ip_store x) (ip_store y) = Some 0%Z).
+Proof. intros x y Hx Hy. split; [exact (ip_equal_iff x y Hx Hy)|exact (ip_equal_other_family x y)]. Qed.
+
+Theorem C01_is_left_child : forall x lvl, ip_ok x -> (0 <= lvl < ip_width x)%Z ->
+  exists r, lrtr_ip_addr_get_bits_gen (ip_store x) lvl 1 = Some r /\
+            lrtr_ip_addr_is_zero_gen r = Some (b2z (negb (nth (Z.to_nat lvl) (ip_bits x) false))).
+Proof. exact ip_is_left_child. Qed.
+
+Theorem C01_covers : forall x y n, ip_ok x -> ip_ok y -> same_family x y = true -> (0 <= n <= ip_width x)%Z ->
+  exists r1 r2, lrtr_ip_addr_get_bits_gen (ip_store x) 0 n = Some r1 /\ lrtr_ip_addr_get_bits_gen (ip_store y) 0 n = Some r2 /\
+    exists b, lrtr_ip_addr_equal_gen r1 r2 = Some (b2z b) /\
+              (b = true <-> firstn (Z.to_nat n) (ip_bits x) = firstn (Z.to_nat n) (ip_bits y)).
+Proof. exact ip_covers. Qed.
+
+(* the domain restriction is real: bit 32 of an IPv4 address is the undefined shift the guards stand for *)
+Example C01_addr_layer_domain : lrtr_ip_addr_get_bits_gen (ip_store (A4 0)) 32 1 = None /\ ip_translator_problems = [].
+Proof. split; vm_compute; reflexivity. Qed.
+
 Print Assumptions C01_state.
 Print Assumptions C01_bits_compare6.
 Print Assumptions C01_bit_select6.
@@ -77,3 +104,6 @@ Print Assumptions C01_bit_select.
 Print Assumptions C01_reasons.
 Print Assumptions C01_spec_is_rfc6811.
 Print Assumptions C01_no_ub.
+Print Assumptions C01_addr_equal.
+Print Assumptions C01_is_left_child.
+Print Assumptions C01_covers.
